@@ -469,6 +469,12 @@ func init() {
 			{ID: "C10.R2", Doc: "TypeOfTF never panics: panicking getters only behind the matching TypeOf guard; reject and parse failure return TypeUndefined; no byte index out of range", Run: func(c *Ctx) {}},
 			{ID: "C10.R3", Doc: "GetTF rejects by panicking and descends through the panicking getters", Run: func(c *Ctx) {}},
 			{ID: "C10.R4", Doc: "leaf hygiene: an empty first segment never resolves", Run: func(c *Ctx) {}},
+			{ID: "C10.R6", Doc: "the navigation primitive TypeOf is defined exactly on the existing positions and never panics (= C05.R1 for list.TypeOf); the folding treats it as an atom", Run: func(c *Ctx) {
+				fd := c.NeedDecl("C10.R6", "(*list).TypeOf")
+				if fd != nil {
+					c.R.Floor("C10.R6", runAs(c, "C10.R6", func(c2 *Ctx) { c05TypeOf(c2, fd) }, nil), 1)
+				}
+			}},
 			{ID: "C10.R5", Doc: "PURE: tree-form reads write nothing", Run: func(c *Ctx) {
 				c.R.Floor("C10.R5", pureRule(c, "C10.R5", []string{"(*list).GetTF", "(*list).TypeOfTF", "(*object).GetTF", "(*object).TypeOfTF"}), 4)
 			}},
@@ -638,6 +644,7 @@ func init() {
 			{ID: "C11.R2", Doc: "reuse-or-replace: TypeOf(seg)==TypeK guard, GetK(seg) reuse, NewK() stored at seg; K is the kind the next sigil needs", Run: func(c *Ctx) {}},
 			{ID: "C11.R3", Doc: "list padding: index>=count => Add(nil) x (index-count) then exactly one Add; else Replace(index, …)", Run: func(c *Ctx) {}},
 			{ID: "C11.R4", Doc: "frame: exactly the prescribed mutating calls; UnsetTF descents do not mutate; leaves hit the addressed slot; recursion on the child itself", Run: func(c *Ctx) {}},
+			{ID: "C11.R6", Doc: "frame: no two containers share storage, so a write through one path is invisible through every other (= OWN, C09.R2)", Run: func(c *Ctx) { c.R.Floor("C11.R6", ownRule(c, "C11.R6"), 8) }},
 			{ID: "C11.R5", Doc: "fluent return of SetTF/UnsetTF (registered ego on every path)", Run: c11Fluent},
 		},
 	})
